@@ -255,6 +255,8 @@ func gen(seed uint64, tier string) {
 	for _, bad := range []string{"x", "x02", "x0101", "x01ff000000", "x010700000001000000", "x0107000000020000000101000000000000000000f03f000000000000004001"} {
 		fmt.Fprintf(out, "rejthen 12000 %s N GC 2 P %s GC 1 LS 1 %s\n", bad, one, one)
 	}
+	// histories with FAILED encodes/writes/decodes between valid calls (failthen.go)
+	genFailthen(out, r, n/20)
 	// unsupported values (at top level and nested)
 	b := &geom.Bounds{Min: geom.Point{X: 0, Y: 0}, Max: geom.Point{X: 1, Y: 1}}
 	for _, g := range []geom.Geom{b, geom.GeometryCollection{b}, geom.GeometryCollection{geom.Point{}, geom.GeometryCollection{b}}} {
@@ -378,6 +380,8 @@ func impl() {
 				res = implDecbatch(p)
 			case "cc":
 				res = implCC(p)
+			case "failthen":
+				res = implFailthen(p)
 			case "bin":
 				res = implBin(p)
 			case "rdrt":
